@@ -110,9 +110,11 @@ func checkDet(prop, tier string, seed int64) int {
 	// design level: the model of import collisions and their resolution (Dedup.tla) explored over EVERY order of the map ranges;
 	// the invariant InvConfluent says all of them end on the same document (thorough tier: the exploration takes minutes)
 	if tier == "thorough" || os.Getenv("VERIF_DEDUP") != "" {
-		consts := map[string]string{"TKinds": `{"aux1", "recdep"}`, "HKinds": `{"prop", "nested"}`, "H2Kinds": `{"none", "code"}`,
+		// (the configuration of spec/MC_Dedup.cfg: one target kind, 2 x 2 holders, 2 collision patterns, every option set and tie order:
+		// about 7 300 states; adding the recursive target kind multiplies the cost by ten, see DESIGN 4.45)
+		consts := map[string]string{"TKinds": `{"aux1"}`, "HKinds": `{"prop", "nested"}`, "H2Kinds": `{"none", "code"}`,
 			"CKinds": `{"exact", "twoimports"}`, "Export": "FALSE"}
-		mc, _, mcErr := runMC("MC_Dedup", consts, 75*time.Minute, nWorkers())
+		mc, _, mcErr := runMC("MC_Dedup", consts, 45*time.Minute, nWorkers())
 		if mcErr != nil || mc == nil || !mc.OK {
 			t := ""
 			if mc != nil {
